@@ -22,6 +22,15 @@ from . import c01, c02, c13
 PROPERTY = 'C14'
 LEVEL = 'exploration'
 
+# values that are not JSON's own: non-finite floats in constants and rule parameters, odd characters in directives
+VALUE_GRAMMARS = [
+    "start: 'a' c:`1e999` d:`-1e999` ;\n",
+    "start[cap=1e999]: 'a' ;\n",
+    "start[1e999, -1e999]: 'a' ;\n",
+    "@@namechars :: \"-'\"\n\nstart: 'a' 'b' ;\n",
+    "@@namechars :: '$\\\\'\n\nstart: 'a' 'b' ;\n",
+    "@@namechars :: '\"-'\n\nstart: 'a' 'b' ;\n",
+]
 STRESS = ['f{x', 'f{x}', 'f{a:>5}', '\\e[1m', '\\e[1mx', '{0}', '{a}', '~a1~', '@', '__class__', '"@":', "'", '"', '\\', '\\n', 'é', '{', '}', '%s', '$', '\x1b[1m',
           'None', 'True', '0', '1.5', ' a ', '\t']
 
@@ -167,6 +176,33 @@ def shard_stress(m, items):
         if '`' not in s and '\n' not in s and '{' not in s and '\\' not in s and "'" not in s and '"' not in s:
             text = f"start: 'a' c:`{s}` ;\n"
             check_text(m, text, text, ['a'])
+
+
+def shard_values(m, items):
+    for text in items:
+        check_text(m, text, text, ['a', 'a b', 'a-b', "a'b", ''])
+        # raw values (not their JSON image): parameters and constant results
+        try:
+            model = impl.compile_text(text)
+        except Exception:  # noqa
+            continue
+        for route, reload in (('json', via_json), ('pickle', via_pickle)):
+            try:
+                other = reload(model)
+            except Exception:  # noqa
+                continue        # reported by check_text
+            a = [(r.params, sorted(r.kwparams.items(), key=repr)) for r in model.rules]
+            b = [(r.params, sorted(r.kwparams.items(), key=repr)) for r in other.rules]
+            if repr(a) != repr(b):
+                m.violation(f'{route}/rule-parameters-differ', grammar=text, original=repr(a), reloaded=repr(b))
+            for t in ('a',):
+                try:
+                    x, y = model.parse(t), other.parse(t)
+                except Exception:  # noqa
+                    continue
+                m.add('evaluations')
+                if repr(x) != repr(y):
+                    m.violation(f'{route}/raw-result-differs', grammar=text, input=t, original=repr(x), reloaded=repr(y))
 
 
 def structures():
@@ -323,6 +359,7 @@ def run(rc):
     if not quick:
         stress += list(c13.stress_lexemes(2))
     rc.pmap(shard_stress, stress, chunk=1)
+    rc.pmap(shard_values, VALUE_GRAMMARS, chunk=1)
     check_structures(rc)
     rc.rule = (f'{len(c13.FEATURES)} feature grammars x {{JSON, pickle, Python model source}}; every C01 expression tree with <= {2 if quick else 3} nodes x {{JSON, pickle}}; '
                f'{len(stress)} stress strings (style-escape look-alikes, format specs, class markers, quotes, backslashes, literals) as token / one-rule token / keyword / '
